@@ -218,14 +218,24 @@ impl DegreeMeta for Expression {
                 result
             }
             Access { meta, var, access } => {
-                // Accesses are ignored when determining the degree of a variable.
                 for access in access.iter_mut() {
                     if let AccessType::ArrayAccess(index) = access {
                         result = result || index.propagate_degrees(env);
                     }
                 }
-                if let Some(range) = env.degree(var) {
-                    result = result || meta.degree_knowledge_mut().set_degree(range);
+                // Constant indices are ignored when determining the degree of an access.
+                // However, an element which is selected by a signal (like `table[in]`) is
+                // not a polynomial of bounded degree, even if all elements are constant.
+                let is_selected_by_signal = access.iter().any(|access| match access {
+                    AccessType::ArrayAccess(index) => {
+                        matches!(index.degree(), Some(range) if !range.is_constant())
+                    }
+                    AccessType::ComponentAccess(_) => false,
+                });
+                if !is_selected_by_signal {
+                    if let Some(range) = env.degree(var) {
+                        result = result || meta.degree_knowledge_mut().set_degree(range);
+                    }
                 }
                 result
             }
